@@ -110,7 +110,8 @@ def gen_fit(rng):
         ok, err = False, type(e).__name__ + ": " + str(e)[:80]
     summ = {"estimator": "iCVIFuzzyART", "rho": str(rho), "offline": offline, "mode": mode, "eps": str(eps), "X": [[str(v) for v in r] for r in rows]}
     fails = []
-    robust = all(abs(new - old) > 1e-9 * (1 + abs(old)) for _, _, _, new, old in calls)
+    # exact float equality arises from the same-label shortcut / the k < 2 convention and is exact in the model too
+    robust = all(new == old or abs(new - old) > 1e-9 * (1 + abs(old)) for _, _, _, new, old in calls)
     if ok:
         labels = [int(v) for v in est.labels_]
         want = batch_ch(X, labels)
